@@ -325,8 +325,16 @@ def snapshot():
             "sigint": repr(signal.getsignal(signal.SIGINT)), "stdout": sys.stdout is sys.__stdout__, "stderr": sys.stderr is sys.__stderr__,
             "gc": gc.isenabled(), "switchinterval": sys.getswitchinterval(), "excepthook": sys.excepthook is sys.__excepthook__,
             "builtins": sorted(k for k in vars(builtins) if not k.startswith("__"))}
+# the host's warning machinery is a side channel too (stderr, a module's __warningregistry__, an exception that is not ValueError under -W error);
+# CPython's own SyntaxWarning for the script text (file '<unknown>', raised by ast.parse) is the text's, not the transpiler's
+_warned = []
+def _showwarning(message, category, filename, lineno, file=None, line=None):
+    if filename != "<unknown>":
+        _warned.append("%s: %s" % (category.__name__, str(message)[:80]))
+warnings.showwarning = _showwarning
+warnings.simplefilter("always")
 for name, src in cases:
-    events.clear(); builtins.CANARY.clear()
+    events.clear(); builtins.CANARY.clear(); _warned.clear()
     before = snapshot()
     armed[0] = True
     t0 = time.time()
@@ -342,6 +350,8 @@ for name, src in cases:
     armed[0] = False
     after = snapshot()
     changed = sorted(k for k in before if before[k] != after[k])
+    if _warned and not res.startswith("CRASH"):
+        res = "CRASH:the transpiler reported through the host's warning machinery (stderr output, module state; not a ValueError under -W error): " + _warned[0]
     if changed and not res.startswith("CRASH"):
         res = "CRASH:interpreter state changed by parse(): " + ", ".join(f"{k}: {str(before[k])[:40]} -> {str(after[k])[:40]}" for k in changed[:3])
         sys.setrecursionlimit(before["recursionlimit"])
@@ -406,6 +416,11 @@ def hostile_cases():
               ("import-dotted-user-module", "import c11_canary_pkg.patterns\ny = 1\n"), ("import-user-package", "import c11_canary_pkg\ny = 1\n"),
               ("import-user-package-as", "from c11_canary_pkg import patterns as p\ny = 1\n"), ("import-inside-function", "def f():\n    import c11_canary_pkg.patterns\n    return 1\ny = f()\n"),
               ("import-stdlib-dotted", "import wsgiref.util\nimport xml.dom.minidom\ny = 1\n"), ("import-relative", "from . import c11_canary_pkg\ny = 1\n"),
+              ("format-spec-expression-canary", "x = f\"{5:{CANARY.append(61)}}\"\n"), ("format-spec-expression-in-tuple", "a, b = f\"{1:{CANARY.append(62)}}\", 2\n"),
+              ("format-spec-expression-subclasses", "y = f\"{5:{().__class__.__base__.__subclasses__()}}\"\n"), ("format-spec-expression-in-sleep", "from Reduino.Utils import sleep\nsleep(f\"{5:{CANARY.append(63)}}\")\n"),
+              ("format-spec-expression-in-helper", "def f():\n    return f\"{7!r:{CANARY.append(64)}}\"\nz = f()\n"), ("conversion-and-spec-constant", "w = f\"{5!r:>4}\"\n"),
+              ("ultrasonic-model-keyword", "from Reduino.Sensors import Ultrasonic\nu = Ultrasonic(2, 3, model='HC-SR04')\nd = u.measure_distance()\n"),
+              ("ultrasonic-unknown-model", "from Reduino.Sensors import Ultrasonic\nu = Ultrasonic(2, 3, model='nope')\n"), ("ultrasonic-sensor-keyword", "from Reduino.Sensors import Ultrasonic\nu = Ultrasonic(2, 3, sensor='HC-SR04')\n"),
               ("lone-surrogate-in-string", "x = '\ud800'\n"), ("lone-surrogate-in-call", "from Reduino.Communication import SerialMonitor\nm = SerialMonitor(9600)\nm.write('a\udcffb')\n"),
               ("lone-surrogate-in-identifier-position", "y = 1\n\udc80 = 2\n"), ("lone-surrogate-in-device-argument", "from Reduino.Actuators import Led\nled = Led(13)\nled.blink(\ud800)\n"),
               ("lone-surrogate-in-comment", "x = 1  # \udc80 note\ny = x + 1\n"),
